@@ -1,5 +1,6 @@
 import AscaVerif.Lemmas.AParseT
 import AscaVerif.Props.C02ALex
+import AscaVerif.Model.ErrFmt
 /-! C02 for the alias front end, at full strength: **alias lexer + alias parser are total**.  On EVERY romaniser or
     deromaniser line `AliasParser::parse` after `AliasLexer::get_line` returns the transformations or an
     `AliasSyntaxError`: no loop runs for ever and none of the parser's panic sites - `token_list[self.pos-1]`,
@@ -8,7 +9,11 @@ import AscaVerif.Props.C02ALex
     `start.expect()` of `get_segment` - is reachable (each is an explicit `panic` outcome of Model/AliasParser.lean).
     The proof carries what the alias lexer guarantees about its tokens (`ALex.lexLine_tokens_ok`: a feature token is a
     row of the alias feature table with `+` or `-`, or `tone: n` with `n < 2^16`; a diacritic token indexes the table;
-    the list ends with `Eol`) through the parser (`Lemmas/AParseT.lean`).  Two genuine panics stood in the way and were
+    the list ends with `Eol`) through the parser (`Lemmas/AParseT.lean`).
+    Under the same invariant EVERY error of alias lexer + parser is well placed (`parseLine_error_spans`, C17 for alias
+    lines): a token error underlines the current token; `EmptyInput` / `EmptyReplacements` its first column; the two
+    `DiacriticDoesNotMeetPreReqs` errors the segment's token and then the diacritic's; `UnbalancedIO` a side from its
+    first item to its last (item positions are tracked through the loops: `AccOK`, `SegAcc`).  Two genuine panics were
     repaired first: a tone above u16 (`fix:` 45bd874) and an alpha on a feature (`[Vstress] > x`, D31: the alias lexer
     accepted alpha letters although nothing in an alias can bind them, and the parser's `unreachable!()` was reached). -/
 namespace Asca.AParse.T
@@ -16,7 +21,9 @@ open Asca.AParse
 open ALex (AToken ATK)
 open Parse (PErr PRes)
 
-theorem expectArrow_le (s : APS) (hi : Inv s) : Le s (expectArrow s).2 := by
+variable {L : Nat}
+
+theorem expectArrow_le (s : APS) (hi : Inv L s) : Le L s (expectArrow s).2 := by
   unfold expectArrow
   rcases expect_cases s .arrow hi (by decide) with ⟨he, h1⟩ | he
   · simp only [he, if_true]; exact h1.toLe
@@ -25,41 +32,73 @@ theorem expectArrow_le (s : APS) (hi : Inv s) : Le s (expectArrow s).2 := by
     · rw [he2]; exact h2.toLe
     · rw [he2]; exact Le.refl s hi
 
-theorem pairUp_nofuel (a b : List AItem) : NoFuel (pairUp a b) := by
+/-- `UnbalancedIO` underlines a side from its first item to its last -/
+theorem unbalanced_ok (s : APS) (hi : Inv L s) (l : List AItem) (hl : AccOK s l) :
+    Parse.Spans.SpansOK L (match l.head?, l.getLast? with
+      | some f, some t => (⟨"UnbalancedIO", [(f.pos.start, t.pos.stop)]⟩ : PErr)
+      | _, _ => ⟨"UnbalancedIO", []⟩).spans := by
+  cases hh : l.head? with
+  | none => exact ⟨fun _ h => by simp at h, List.Pairwise.nil⟩
+  | some f =>
+    cases hg : l.getLast? with
+    | none => exact ⟨fun _ h => by simp at h, List.Pairwise.nil⟩
+    | some t =>
+      have ht : t ∈ l := List.mem_of_getLast? hg
+      have h1 := hl.2 f hh t ht
+      have h2 := ((hl.1 t ht).proper hi).2
+      exact Parse.Spans.spansOK_one _ _ ⟨h1, h2⟩
+
+theorem pairUp_nofuel (s : APS) (hi : Inv L s) (a b : List AItem) (ha : AccOK s a) (hb : AccOK s b) : NoFuel L (pairUp a b) := by
   unfold pairUp
   simp only
   split
-  · trivial
-  · split <;> trivial
+  · exact unbalanced_ok s hi a ha
+  · split
+    · exact unbalanced_ok s hi b hb
+    · trivial
 
-theorem getLine_nofuel (derom : Bool) (s : APS) (hi : Inv s) : NoFuel (getLine derom s) := by
+theorem getLine_nofuel (derom : Bool) (s : APS) (hi : Inv L s) : NoFuel L (getLine derom s) := by
   unfold getLine
-  have h1 : Spec Le s (if derom = true then getReplacements s else getInput s) := by
+  have h1 : Spec L (Le L) s (if derom = true then getReplacements s else getInput s) := by
     split
     · exact getReplacements_spec s hi
     · exact getInput_spec s hi
-  refine Spec.bindN h1 (fun ins s1 hle1 => ?_)
+  refine Spec.bindNE h1 (fun ins s1 hins hle1 => ?_)
+  have hinsOK : AccOK s1 ins := by
+    cases derom with
+    | true => exact getReplacements_items s hi ins s1 (by simpa using hins)
+    | false => exact getInput_items s hi ins s1 (by simpa using hins)
   have h2 := expectArrow_le s1 hle1.inv
   rcases he : expectArrow s1 with ⟨a, s2⟩
   rw [he] at h2
   simp only [he]
   cases a with
-  | false => trivial
+  | false => exact tokErr_ok _ s2 h2.inv
   | true =>
     simp only [Bool.not_true, Bool.false_eq_true, if_false]
-    have h3 : Spec Le s2 (if derom = true then getInput s2 else getReplacements s2) := by
+    have h3 : Spec L (Le L) s2 (if derom = true then getInput s2 else getReplacements s2) := by
       split
       · exact getInput_spec s2 h2.inv
       · exact getReplacements_spec s2 h2.inv
-    refine Spec.bindN h3 (fun outs s3 hle3 => ?_)
+    refine Spec.bindNE h3 (fun outs s3 houts hle3 => ?_)
+    have houtsOK : AccOK s3 outs := by
+      cases derom with
+      | true => exact getInput_items s2 h2.inv outs s3 (by simpa using houts)
+      | false => exact getReplacements_items s2 h2.inv outs s3 (by simpa using houts)
     rcases hx : s3.expect .eol with ⟨e, s4⟩
     simp only
     cases e with
-    | false => trivial
-    | true => exact pairUp_nofuel ins outs
+    | false =>
+      have : s4 = s3 := by
+        unfold APS.expect at hx
+        by_cases hk : s3.cur.kind = .eol
+        · simp [hk] at hx
+        · simp only [hk, if_false, Prod.mk.injEq] at hx; exact hx.2.symm
+      rw [this]; exact tokErr_ok _ s3 hle3.inv
+    | true => exact pairUp_nofuel s3 hle3.inv ins outs (hinsOK.mono (h2.trans hle3)) houtsOK
 
-/-- **the alias parser neither panics nor loops** on a token list of the alias lexer -/
-theorem parse_no_panic (derom : Bool) (toks : List AToken) (hok : AToksOK toks) : NoFuel (parse derom toks) := by
+/-- **the alias parser neither panics nor loops, and its errors are well placed**, on a token list of the alias lexer -/
+theorem parse_no_panic (derom : Bool) (toks : List AToken) (hok : AToksOK L toks) : NoFuel L (parse derom toks) := by
   unfold parse
   split
   · obtain ⟨t, hl, _⟩ := hok.lastEol; cases hl
@@ -68,8 +107,19 @@ theorem parse_no_panic (derom : Bool) (toks : List AToken) (hok : AToksOK toks) 
     · trivial
     · exact getLine_nofuel derom _ ⟨hok, by simp, by simp⟩
 
-theorem toksOK_of_lex (derom : Bool) (src : Text) (toks : List AToken) (h : ALex.lexLine derom src = .ok toks) : AToksOK toks :=
-  ⟨(ALex.lexLine_token_spans derom src toks h).2, ALex.lexLine_tokens_ok derom src toks h⟩
+theorem sorted_of_pairwise {toks : List AToken} (h : toks.Pairwise (fun a b => a.stop ≤ b.start)) :
+    ∀ (i j : Nat) (ti tj : AToken), i < j → toks[i]? = some ti → toks[j]? = some tj → ti.stop ≤ tj.start := by
+  intro i j ti tj hij hi hj
+  have hi' := List.getElem?_eq_some_iff.mp hi
+  have hj' := List.getElem?_eq_some_iff.mp hj
+  obtain ⟨hil, hie⟩ := hi'
+  obtain ⟨hjl, hje⟩ := hj'
+  have := List.pairwise_iff_getElem.mp h i j hil hjl hij
+  rw [hie, hje] at this; exact this
+
+theorem toksOK_of_lex (derom : Bool) (src : Text) (toks : List AToken) (h : ALex.lexLine derom src = .ok toks) : AToksOK src.length toks :=
+  ⟨(ALex.lexLine_token_spans derom src toks h).2, ALex.lexLine_tokens_ok derom src toks h,
+   (ALex.lexLine_token_spans derom src toks h).1, sorted_of_pairwise (ALex.lexLine_sorted derom src toks h)⟩
 
 /-- **alias lexer + parser are total**: on every line, the transformations or an `AliasSyntaxError` -/
 theorem parseLine_returns (derom : Bool) (src : Text) :
@@ -86,10 +136,41 @@ theorem parseLine_returns (derom : Bool) (src : Text) :
     | outOfFuel p => rw [hr] at hp; exact hp.elim
   · rw [h]; exact Or.inr ⟨_, rfl⟩
 
+/-- **every error of alias lexer + parser is well placed** (C17 for alias lines): each underlined span has
+    `start ≤ end ≤ len + 1`, and a second span begins where the first ends or later -/
+theorem parseLine_error_spans (derom : Bool) (src : Text) (e : PErr) (h : parseLine derom src = .err e) :
+    Parse.Spans.SpansOK src.length e.spans := by
+  unfold parseLine at h
+  cases hl : ALex.lexLine derom src with
+  | ok toks =>
+    rw [hl] at h
+    have hp := parse_no_panic derom toks (toksOK_of_lex derom src toks hl)
+    have h' : parse derom toks = .err e := h
+    rw [h'] at hp; exact hp
+  | err le =>
+    rw [hl] at h; cases h
+    exact Parse.Spans.spansOK_one _ _ (ALex.lexLine_error_span derom src le hl)
+  | panic p => rw [hl] at h; cases h
+  | outOfFuel p => rw [hl] at h; cases h
+
+/-- such an error's caret line can be laid out: the padding and the carets are computed without underflow -/
+theorem alias_error_formats (derom : Bool) (src : Text) (e : PErr) (h : parseLine derom src = .err e) :
+    ∀ sp ∈ e.spans, ∃ carets, ErrFmt.spanLine sp.1 sp.2 = .ok carets := by
+  intro sp hsp
+  have := (parseLine_error_spans derom src e h).1 sp hsp
+  unfold ErrFmt.spanLine
+  have hn : ¬ sp.2 < sp.1 := by omega
+  rw [if_neg hn]
+  exact ⟨_, rfl⟩
+
 /-! Non-vacuity: the inputs that used to panic are now rejected by the lexer; ordinary lines parse -/
 example : (match parseLine false ("[Vstress] > x".toList.map Char.toNat) with | .err e => some e.name | _ => none) = some "UnknownEnbyFeature" := by decide +kernel
 example : (match parseLine false ("[-Astress] > x".toList.map Char.toNat) with | .err e => some e.name | _ => none) = some "UnknownFeature" := by decide +kernel
 example : (match parseLine false ("V:[+long, -stress], ʃ > aa, sh".toList.map Char.toNat) with | .ok r => some r.length | _ => none) = some 2 := by decide +kernel
 example : (match parseLine true ("sh > a:[tone: 70000]".toList.map Char.toNat) with | .err e => some e.name | _ => none) = some "ToneTooBig" := by decide +kernel
+
+example : (match parseLine false ("a, b, c > x, y".toList.map Char.toNat) with | .err e => some e | _ => none) = some ⟨"UnbalancedIO", [(10, 14)]⟩ := by decide +kernel
+example : (match parseLine false ("aʰ > x".toList.map Char.toNat) with | .err e => some e | _ => none) = some ⟨"DiacriticDoesNotMeetPreReqsFeat", [(0, 1), (1, 2)]⟩ := by decide +kernel
+example : (match parseLine false ("> x".toList.map Char.toNat) with | .err e => some e | _ => none) = some ⟨"EmptyInput", [(0, 1)]⟩ := by decide +kernel
 
 end Asca.AParse.T
